@@ -19,6 +19,9 @@ elif prop.startswith("R4_"):
 elif prop.startswith("R5_"):
     srcname, prop = prop, prop[3:]
     letter = {"A": "I", "B": "J"}[srcletter]
+elif prop.startswith("R6_"):
+    srcname, prop = prop, prop[3:]
+    letter = {"A": "K", "B": "L"}[srcletter]
 src = f"/tmp/seed_out/{srcname}/{srcletter}"
 dst = f"/verif/seeded/{prop}-{letter}"
 os.makedirs(dst, exist_ok=True)
